@@ -1226,6 +1226,16 @@ pub fn peer_receiver(seed: u64, family: &str, variant: u8) -> Scenario {
         2 => w.push(WOp::Drop),
         _ => w.push(WOp::Flush),
     }
+    // buffer family, "impatient writer": a write call that stays blocked is abandoned after a
+    // few milliseconds and the half is polled again from another task context
+    if variant == 4 && r.chance(0.15) {
+        let ms = *r.pick(&[1u64, 2, 5, 20, 60]);
+        for op in w.iter_mut() {
+            if let WOp::Write { n, chunk } = op {
+                *op = WOp::WriteImpatient { n: *n, chunk: *chunk, ms };
+            }
+        }
+    }
     // the peer's window behaviour
     let mut auto = AutoCfg { ack: AckMode::Immediate, sack: variant != 1 && r.chance(0.7), answer_fin: true, rx_model: None };
     auto.ack = match r.below(4) {
@@ -1314,14 +1324,30 @@ pub fn peer_receiver(seed: u64, family: &str, variant: u8) -> Scenario {
             _ => {}
         }
     }
+    // buffer family, "piggyback" shape: the peer never sends a bare ACK; its acknowledgements ride
+    // only on its own data packet, which it keeps retransmitting (the endpoint consumed it long
+    // ago: every copy is a duplicate that carries a first-time acknowledgement number)
+    let piggyback = variant == 4 && r.chance(0.12);
+    if piggyback {
+        auto.ack = AckMode::Manual;
+        auto.rx_model = None;
+        steps.clear();
+        steps.push(PeerStep::SendPkt(0));
+        for _ in 0..r.range(20, 150) {
+            steps.push(PeerStep::Wait(r.log_range(1, 150)));
+            steps.push(PeerStep::SendPkt(0));
+        }
+        steps.push(PeerStep::SetAuto(AutoCfg { ack: AckMode::Immediate, ..auto.clone() }));
+        steps.push(PeerStep::Ack { ack_delta: 0, wnd: None, sack: SackSpec::Auto });
+    }
     steps.push(PeerStep::Wait(200));
     let peer = PeerScript {
         role,
         isn,
         conn_id,
-        wnd,
+        wnd: if piggyback { wnd.max(4 * mss as u32) } else { wnd },
         auto,
-        pkts: if r.chance(0.3) { (0..r.range(1, 5)).map(|_| r.range(1, mss as u64) as u16).collect() } else { vec![] },
+        pkts: if piggyback { vec![r.range(1, mss as u64) as u16] } else if r.chance(0.3) { (0..r.range(1, 5)).map(|_| r.range(1, mss as u64) as u16).collect() } else { vec![] },
         steps,
         start_ms: 0,
         synack_delay_ms: r.range(0, 30),
